@@ -27,6 +27,15 @@ Qed.
 Lemma blk_of_some c a : objlist c = Some a -> blk_of c = a.
 Proof. intro H. unfold blk_of. now rewrite H. Qed.
 
+Lemma cont_ok_num0 c l : cont_ok c l -> num c = 0 -> cont_ok c [].
+Proof.
+  intros (Hn & Hm & Ho & Hr) H0. split; [rewrite len_nil; exact H0|].
+  split; [exact Hm|]. split; [exact Ho | apply rep_nil].
+Qed.
+
+Lemma blk_of_mk c n m : blk_of (mkC (objlist c) n m) = blk_of c.
+Proof. reflexivity. Qed.
+
 Lemma cont_ok_some c l :
   cont_ok c l -> 0 < maxo c -> exists a, objlist c = Some a /\ rep a l.
 Proof.
@@ -455,14 +464,12 @@ Proof.
         destruct E2 as (Hok1 & Hmax & Hc). split; [exact Hok1|]. split; [lia | exact Hc].
       - inversion E2; subst. split; [exact Hok|]. split; [lia | apply cnt_rel_refl]. }
     destruct H1 as (Hok1 & Hcap & Hc1). pose proof Hok1 as (Hn1 & _).
-    cbn [blk_of objlist] in H. fold (blk_of c1) in H.
-    destruct (iter_up (construct_step v) (N.to_nat (n - num c)) (num c) (blk_of c1, k2)) as [a3 k3] eqn:E3.
+    rewrite blk_of_mk in H. replace (num c) with (num c1) in H by lia.
+    destruct (iter_up (construct_step v) (N.to_nat (n - num c1)) (num c1) (blk_of c1, k2)) as [a3 k3] eqn:E3.
     inversion H; subst; clear H.
-    replace (num c) with (num c1) in E3 by lia.
     destruct (pad_ok _ _ _ _ _ _ _ Hok1 Hle Hcap E3) as [Hok2 Hc2].
-    split.
-    + unfold upd_blk in *. cbn [objlist num maxo] in *. exact Hok2.
-    + eapply cnt_rel_trans; [exact Hc1 | exact Hc2 | lia].
+    split; [exact Hok2|].
+    eapply cnt_rel_trans; [exact Hc1 | exact Hc2 | lia].
   - (* cutting: cells n .. num-1 are destructed, nothing is constructed *)
     apply destroy_range in E1.
     + destruct E1 as [Hg Hc1].
@@ -508,7 +515,7 @@ Proof.
   destruct (objlist c) as [a|] eqn:E.
   - destruct (N.eqb_spec (num c) 0) as [Hz|Hnz].
     + inversion H; subst. split.
-      * unfold cont_ok. rewrite len_nil. repeat split; try lia; try apply Ho. apply rep_nil.
+      * apply (cont_ok_num0 _ _ Hok Hz).
       * eapply cnt_rel_conv; [apply cnt_rel_refl | lia].
     + destruct (iter_up destroy_step (N.to_nat (num c)) 0 (a, k)) as [a1 k1] eqn:L.
       inversion H; subst; clear H.
@@ -517,7 +524,7 @@ Proof.
         apply mk_ok; [apply rep_nil | reflexivity | lia | lia].
       * intros j Hj. eexists. rewrite (blk_of_some _ _ E) in Hr. apply Hr. lia.
   - inversion H; subst. destruct (cont_ok_none _ _ Hok E) as (H0 & H1 & H2). split.
-    + unfold cont_ok. rewrite len_nil. repeat split; try lia; try apply Ho. apply rep_nil.
+    + apply (cont_ok_num0 _ _ Hok H1).
     + eapply cnt_rel_conv; [apply cnt_rel_refl | lia].
 Qed.
 
